@@ -57,6 +57,7 @@ func (publisherSelf *PublisherDef[T]) Unsubscribe(s *Subscription[T]) {
 	isAnyMatching := false
 
 	publisherSelf.doSubscribeSafe(func() {
+		verifAt("publisher.Unsubscribe.locked")
 		subscribers := publisherSelf.subscribers
 		for i, v := range subscribers {
 			if v == s {
@@ -80,8 +81,10 @@ func (publisherSelf *PublisherDef[T]) Publish(result T) {
 	publisherSelf.doSubscribeSafe(func() {
 		subscribers = publisherSelf.subscribers
 	})
+	verifAt("publisher.Publish.snapshotted")
 
 	for _, s := range subscribers {
+		verifAt("publisher.Publish.beforeDeliver")
 		if s.OnNext != nil {
 
 			doSub := func() {
